@@ -96,6 +96,40 @@ def hand_back(ctx, rid="R3"):
     ctx.decide(o, total >= 6, "%d sites" % total, "only %d sites found" % total)
 
 
+def last_node_overwrites(ctx, rid="R3"):
+    """a path's last element is only overwritten by a depot when it is itself a depot (otherwise a trip is silently lost)"""
+    INDEX_MUT = "core::ops::index::IndexMut::index_mut"
+    n = 0
+    for key in sorted(ctx.prog.bodies):
+        if not key.startswith(SCHEDULE + "::") or getattr(ctx.prog.bodies[key], "test_unit", False):
+            continue
+        fd = None
+        for c in ctx.prog.bodies[key].calls():
+            if c.decl != INDEX_MUT or not any("NodeIdx" in t for t in c.targs[:1]):
+                continue
+            fd = fd or ctx.fd(key)
+            # index = len - 1 ?
+            idx = fd.slice_operand_pure(c, c.args[1])
+            if not (call("alloc::vec::Vec::len") in idx["atoms"] and any(
+                    d.instr is not None and d.instr.kind == "assign" and d.instr.rv_kind() == "binop" and d.instr.rv["op"].startswith("Sub")
+                    and any(op.const_val() == 1 for op in d.instr.ops) for d in idx["defs"])):
+                continue
+            n += 1
+            o = ctx.ob("%s.%s.last-node-overwrite#%d" % (rid, key.split("::")[-1], n), "T12", key,
+                       "%s: the last node of a path is overwritten only if it is a depot" % key.split("::")[-1])
+            o.loc = c.line()
+            guarded = False
+            for sw, cal, d in controlling_sources(fd, c):
+                if cal == ND("is_depot") and d is not None:
+                    ch = direct_chain(fd, d.args[0], follow={N("node"): 1})
+                    if any(x.endswith("::last") for x in ch):
+                        guarded = True
+            ctx.decide(o, guarded, "guarded by is_depot(last node)",
+                       "the element at len-1 is overwritten at %s without testing that the last node is a depot: a path that ends with a "
+                       "service trip silently loses that trip" % c.line(), loc=c.line())
+    return n
+
+
 def formation_edits(ctx, rid="R5"):
     def writes(fd, local_name="new_formation"):
         out = []
@@ -139,6 +173,7 @@ def rules(ctx):
     purity.no_public_mutators(ctx, "R2.no-public-mutators")
     purity.no_interior_mutability(ctx, "R2.no-interior-mutability")
     hand_back(ctx)
+    last_node_overwrites(ctx)
     must_depend(ctx, "R4.emptied-vehicle-is-replaced", "T1", S("remove_segment"), "ret", [call(S("replace_vehicle_by_dummy")), call(T("remove"))],
                 "remove_segment: a vehicle whose whole tour is removed is replaced by a dummy (its trips are kept)")
     o, fd = ctx.require_fn("R4.emptied-provider-disappears", "T1", S("update_tours"),
